@@ -278,6 +278,19 @@ V("C17", "C17.R11", "c17-typedef-name-not-required", "shroud/ast.py",
   """        if name is None:
             raise RuntimeError("typedef does not name a type: " + decl)
 """, "", "fire", "add_typedef:name-required")
+V("C06", "C06.R12", "c06-dealloc-not-automatic", "shroud/wrapp.py",
+  """            selected = ["dealloc", "del"]""", """            selected = ["del"]""", "fire", "dealloc-always")
+V("C06", "C06.R12", "c06-dealloc-does-not-free", "shroud/wrapp.py",
+  """        output.append("Py_TYPE(self)->tp_free((PyObject *) self);")
+""", "", "fire", "dealloc-body")
+V("C06", "C06.R12", "c06-result-object-idtor-unset", "shroud/wrapp.py",
+  """            # PyObject_New does not initialize the object.
+            # 0 does not release, else the index from owner(caller).
+            "{py_var}->{PY_type_dtor} = {capsule_order};",
+""", "", "fire", "py_shadow_*_result]:idtor")
+V("C06", "C06.R12", "c06-owner-caller-result-not-registered", "shroud/wrapp.py",
+  """        if (sgroup == "shadow" and not is_ctor
+                and ast.attrs["owner"] == "caller"):""", """        if (sgroup == "shadow" and not is_ctor):""", "fire", "owner-caller")
 V("C05", "C05.R16", "c05-ctor-default-returns-nullptr", "shroud/wrapp.py",
   '                "return {PY_error_return};\\n"\n#                "goto fail;\\n"',
   '                "return {nullptr};\\n"\n#                "goto fail;\\n"', "fire", "wrap_function:return {nullptr}")
